@@ -214,3 +214,94 @@ func dedupStrings(in []any) []any {
 	}
 	return out
 }
+
+// ForeignKeywords adds, to the root of doc and to one schema below it, a keyword that belongs to the OTHER supported draft
+// and that this draft's vocabulary does not contain: unknown keywords are ignored (annotations included), so neither the
+// verdicts nor what counts as evaluated may change. Only keywords with an unambiguous home are used: dependencies and
+// additionalItems (draft-07) inside 2020-12 documents; dependentSchemas, dependentRequired and prefixItems (2020-12) inside
+// draft-07 documents. Their values are chosen to bite if they were honoured.
+func ForeignKeywords(r *rand.Rand, doc any, draft Draft, names []string) {
+	root, ok := doc.(map[string]any)
+	if !ok {
+		return
+	}
+	if len(names) == 0 {
+		names = Names[:4]
+	}
+	add := func(m map[string]any) {
+		biting := func() any {
+			switch r.IntN(4) {
+			case 0:
+				return false
+			case 1:
+				return map[string]any{"required": []any{"zz-never-present"}}
+			case 2:
+				// evaluates every property / item: would silence unevaluated* if its annotations leaked
+				return map[string]any{"additionalProperties": true, "items": true}
+			}
+			return map[string]any{"properties": map[string]any{Pick(r, names): true}, "minProperties": json.Number("50")}
+		}
+		if draft == D2020 {
+			if r.IntN(3) > 0 {
+				dep := map[string]any{}
+				for _, n := range names {
+					if r.IntN(2) == 0 {
+						dep[n] = biting()
+					} else {
+						dep[n] = []any{"zz-never-present"}
+					}
+				}
+				m["dependencies"] = dep
+			} else if _, has := m["additionalItems"]; !has {
+				m["additionalItems"] = biting()
+			}
+			return
+		}
+		switch r.IntN(3) {
+		case 0:
+			dep := map[string]any{}
+			for _, n := range names {
+				dep[n] = biting()
+			}
+			m["dependentSchemas"] = dep
+		case 1:
+			dep := map[string]any{}
+			for _, n := range names {
+				dep[n] = []any{"zz-never-present"}
+			}
+			m["dependentRequired"] = dep
+		default:
+			m["prefixItems"] = []any{biting(), false}
+		}
+	}
+	if _, hasRef := root["$ref"]; !(hasRef && draft == D7) {
+		add(root)
+	}
+	// one schema below the root: a property value, an applicator branch or the items schema
+	var subs []map[string]any
+	if p, ok := root["properties"].(map[string]any); ok {
+		for _, k := range sortedKeysAny(p) {
+			if sm, ok := p[k].(map[string]any); ok {
+				subs = append(subs, sm)
+			}
+		}
+	}
+	for _, kw := range []string{"allOf", "anyOf", "oneOf"} {
+		if a, ok := root[kw].([]any); ok {
+			for _, e := range a {
+				if sm, ok := e.(map[string]any); ok {
+					subs = append(subs, sm)
+				}
+			}
+		}
+	}
+	if sm, ok := root["items"].(map[string]any); ok {
+		subs = append(subs, sm)
+	}
+	if len(subs) > 0 {
+		sm := Pick(r, subs)
+		if _, hasRef := sm["$ref"]; !(hasRef && draft == D7) {
+			add(sm)
+		}
+	}
+}
